@@ -449,7 +449,7 @@ pub type DateTimeString = String;
     ensures r.id == id, r.location == location, r.start == start, r.end == end, r.track_count == track_count,
 //@end
 
-//@skeleton model/src/json_serialisation/mod.rs fn create_service_trips : closure find#0; closure find#1; let origin; let destination; let departure_time; let arrival_time; let distance; let seated; stmt "if passengers == 0"; let maximal_formation_count; let service_trip = fd090da4899b1365
+//@skeleton model/src/json_serialisation/mod.rs fn create_service_trips : closure find#0; let vehicle_type; closure find#1; let id; let origin; let destination; let departure_time; let arrival_time; let distance; let seated; stmt "if passengers == 0"; let maximal_formation_count; let service_trip = b19af178e4145b5c
 
 // the two look-ups by id (`.iter().find(<closure>).unwrap()`: A-lib, `find` returns the first element the closure accepts;
 // the `unwrap` needs that one exists: "references resolve" of the input format)
@@ -466,6 +466,19 @@ pub type DateTimeString = String;
     ensures r == (segment.id@ == departure_segment.route_segment@), // @obl C17.loader.route_segment_is_found_by_the_referenced_id
 //@end
 
+//@frag model/src/json_serialisation/mod.rs fn create_service_trips : let vehicle_type as frag_trip_vehicle_type
+//@params vehicle_type_lookup: &StdMap<IdType, VehicleTypeIdx>, route: &Route
+//@ret (r: VehicleTypeIdx)
+//@sig
+    requires vehicle_type_lookup@.contains_key(route.vehicle_type), // "references resolve"
+    ensures r == vehicle_type_lookup@[route.vehicle_type], // @obl C17.loader.vehicle_type_is_the_routes_vehicle_type
+//@end
+//@frag model/src/json_serialisation/mod.rs fn create_service_trips : let id as frag_trip_id
+//@params departure_segment: &DepartureSegment
+//@ret (r: String)
+//@sig
+    ensures r@ == departure_segment.id@, // @obl C17.loader.node_id_is_the_departure_segments_id
+//@end
 //@frag model/src/json_serialisation/mod.rs fn create_service_trips : let origin as frag_trip_origin
 //@params locations: &Locations, location_lookup: &StdMap<IdType, LocationIdx>, route_segment: &&RouteSegment
 //@ret (r: Location)
